@@ -46,7 +46,7 @@ def builds(tier):
 
 
 def plan(tier, seed, rng, scale):
-    n = int((300 if tier == 'quick' else 9000) * scale)
+    n = int((1000 if tier == 'quick' else 12000) * scale)
     descs = []
     for ns in range(1, 13):
         descs.append({'ns': ns, 'k': rng.choice([5, 7, 9, 15, 31, 33, 63]), 'seed': rng.getrandbits(32), 'full': True})
